@@ -481,6 +481,8 @@ class TypeMap:
             return self.scalar_classes[last]["ctype"]
         if last in ("mersenne_twister_engine", "mt19937"):
             return "struct vf_mt19937"
+        if last == "exception_ptr" and not t.args and name.startswith("std::"):
+            return "vf_excptr"  # std::exception_ptr: the KIND of the stored exception (0 = null, VF_EXC_<Type>)
         if last == "result_type" and "mersenne_twister_engine" in name:
             return "unsigned long"
         if last in ("map", "unordered_map") and len(t.args) >= 2:
